@@ -278,8 +278,15 @@ func (q *Tagged) Push(files []sts.Hashed) {
 		}
 		if orig, ok := q.byFile[file.GetName()]; ok {
 			// If a file by this name is already here, let's start over
+			prev := orig.prev
 			q.removeFile(orig)
 			orig.unlink()
+			if q.headFile[group.name] == nil && prev != nil {
+				// The file being replaced was the only one left in its group.
+				// Keep its predecessor as the head placeholder (as Pop does
+				// when a group runs dry) so the chain isn't lost.
+				q.headFile[group.name] = prev
+			}
 			list := q.list[group.name]
 			// Have to brute force this since the list may not be sorted by
 			// name
